@@ -46,6 +46,10 @@ def main():
     finally:
         shutil.rmtree(scratch, ignore_errors=True)
     print(json.dumps(out, indent=1))
+    try:
+        json.dump(out, open(os.path.join(d, "result.json"), "w"), indent=1)
+    except OSError:
+        pass
     return out
 
 
